@@ -155,7 +155,7 @@ CLAIMED = {
         technique="Coq proof (symbolic execution of the monadic models, exhaustive vm_compute over the h11 state space) + in-Coq differential correspondence",
     ),
     "C06": dict(
-        text='Coq theorems over the h11 state-machine model (exhaustive over its 648 states) and the protocol model: a request is parsed only from IDLE and leaves IDLE, nothing but start_next_cycle returns to IDLE, the cycle restarts only from DONE/DONE and never without keep-alive, reuse iff not terminated and both DONE else close (reader released either way), close announced at the request maximum. Whole runs (Hoare logic over the monadic protocol model, invariants Serial and Capped carried through every step of every run): the stream slot is never overwritten while it holds a stream, and no request is taken on once keep_alive_max_requests have been counted, unless the event oracle breaks the contract of the h11 library. End-to-end: pipelines x segmentations x application behaviours with byte-offset checks that instance k+1 starts after k complete responses.',
+        text='Coq theorems over the h11 state-machine model (exhaustive over its 648 states) and the protocol model: a request is parsed only from IDLE and leaves IDLE, nothing but start_next_cycle returns to IDLE, the cycle restarts only from DONE/DONE and never without keep-alive, reuse iff not terminated and both DONE else close (reader released either way), close announced at the request maximum. Whole runs (Hoare logic over the monadic protocol model, invariants Serial and Capped carried through every step of every run): the stream slot is never overwritten while it holds a stream, no request is taken on once keep_alive_max_requests have been counted, and none once keep-alive is off (Connection: close, HTTP/1.0, a response that announced close), unless the event oracle breaks the contract of the h11 library. End-to-end: pipelines x segmentations x application behaviours with byte-offset checks that instance k+1 starts after k complete responses.',
         design="7/C06",
         note="Trusted: Coq kernel + vm_compute, translate/py2coq.py, harness (h11rig.py with library proxies, h11gen.py, http1e2e.py, streams.py, sched.py). h11's parser/serialiser are not modelled (received events and returned bytes are recorded oracle values); h11's state machine is modelled (LibH11.v, a port of h11/_state.py) and cross-checked against the real library after every call. HTTP/2 and both-worker coverage of this property comes from the C08/C09/C16 rigs. Open known finding F14 (application queue full at closure) is reported as KNOWN-FINDING.",
         technique="Coq proof (symbolic execution of the monadic models, exhaustive vm_compute over the h11 state space) + in-Coq differential correspondence",
